@@ -3213,6 +3213,10 @@ func (p *Parser) parseSet() (*SetLiteral, error) {
 		if tok == RPAREN {
 			break
 		}
+		if tok == EOF {
+			// the text ended inside the list: the scanner answers EOF from here on
+			return nil, newParseError(tokstr(tok, lit), []string{")"}, pos)
+		}
 	}
 	return &SetLiteral{Vals: vals}, nil
 }
